@@ -251,7 +251,7 @@ func budgetShape(f *ssa.Function, K, L ssa.Value, fMmax, fMmax0 *types.Var) (boo
 func checkC10(c *Ctx, r *Report, tier string) {
 	r.Rule("C10.R1", "the routing function is pure: no stores, no package-level reads, only pure callees (binary.LittleEndian/BigEndian.Uint64)", 1)
 	r.Rule("C10.R2", "the routing function's result is a remainder by its modulus parameter; its only panic-capable operations are remainders by that parameter", 1)
-	r.Rule("C10.R3", "one routing point: the only non-loop index into Dataset.partitions is route(id parameter, Meta().GetPartitionCount()); every single write obtains its partition from that function with the id it then operates on; the batch grouping buckets each item under route(item id) and forwards the bucket with that partition's id", 8)
+	r.Rule("C10.R3", "one routing point: the only non-loop index into Dataset.partitions is route(id parameter, Meta().GetPartitionCount()); every single write obtains its partition from that function with the id it then operates on; the batch grouping buckets each item under route(item id) and forwards the bucket with that partition's id", 9)
 	r.Rule("C10.R4", "the modulus cannot drift: Dataset.partitions / Dataset.meta are stored only in the constructor, len(partitions) is allocated from the partition count, nothing outside generated code stores pb.Dataset.PartitionCount", 3)
 	dsT := c.Named("storage", "Dataset")
 	fParts := c.Field("storage", "Dataset", "partitions")
@@ -445,7 +445,7 @@ func checkC10(c *Ctx, r *Report, tier string) {
 	}
 	// batch grouping: a function returning map[*partition][]item
 	for _, f := range c.FuncsInPkg("storage") {
-		if !c.isProd(f) || f.Signature.Results().Len() != 1 {
+		if !c.isProd(f) || f.Signature.Results().Len() < 1 {
 			continue
 		}
 		mt, ok := f.Signature.Results().At(0).Type().Underlying().(*types.Map)
